@@ -145,7 +145,8 @@ func (x *vhC11) maybeRead() {
 // VH_C11_Consumers: a real mirror whose view outputs are unbuffered (as tmengine wires them);
 // the harness is the state machine and the gossip strategy. A scripted message history
 // (growing prevotes; one nil-precommit round; two consecutive nil-precommit rounds; a
-// minority-prevote jump) is delivered, and after every message each consumer either reads
+// minority-prevote jump; the state machine entering the next round behind or ahead of the
+// mirror) is delivered, and after every message each consumer either reads
 // everything offered or stays stalled. Per consumer: versions per round strictly increase and
 // votes/proposals only grow; at quiescence each has the mirror's latest view; the precommits
 // that justified leaving a round were delivered before that round's view disappeared.
@@ -166,7 +167,7 @@ func VH_C11_Consumers() {
 	x.enterRound(1, 0)
 	all := uint64(1<<uint(n) - 1)
 
-	script := verifrt.Choose("script", 5)
+	script := verifrt.Choose("script", 6)
 	var nilRounds []uint32
 	switch script {
 	case 0: // votes grow within the round
@@ -193,6 +194,20 @@ func VH_C11_Consumers() {
 		x.maybeRead()
 		x.vote(false, 1, 1, "B", 2, 2)
 		x.maybeRead()
+	case 5: // the state machine runs AHEAD of the mirror: round 0 has collected several view
+		// versions, the state machine's own timer moves it to round 1 (answered from the
+		// next-round view, which has seen nothing yet), then round 0 ends with a nil quorum, the
+		// mirror follows to round 1 and a vote for round 1 arrives
+		x.vote(false, 1, 0, "A", 1, 1)
+		x.vote(false, 1, 0, "A", 2, 2)
+		x.vote(true, 1, 0, "", 1, 3)
+		x.maybeRead()
+		x.enterRound(1, 1)
+		x.vote(true, 1, 0, "", 6, 4)
+		x.maybeRead()
+		x.vote(false, 1, 1, "B", 1, 5)
+		x.maybeRead()
+		verifrt.Reach("sm-entered-the-next-round-before-the-mirror")
 	default: // round entrance racing with a view shift: the mirror jumps to round 1 while the
 		// state machine is slow; the state machine then enters round 1 on its own (its timer
 		// elapsed) before reading, and one more vote arrives for round 1
